@@ -82,6 +82,9 @@ func placeholderFinding(r rtResult) string {
 		if r.Stage == "reparse" && (t.Action == sqlparser.AlterStr || t.Action == sqlparser.CreateStr) && r.S2 == t.Action+" table "+sqlparser.String(t.Table) {
 			return "ddl-printed-without-body"
 		}
+		if r.Stage == "reparse" && t.Action == sqlparser.CreateVindexStr && t.VindexSpec != nil && t.VindexSpec.Type.IsEmpty() && strings.HasSuffix(r.S2, " using ") {
+			return "vindex-without-type-prints-dangling-using"
+		}
 		if r.Stage == "reparse" && partialDDL {
 			return "ddl-printed-without-body"
 		}
@@ -121,12 +124,42 @@ func c30Prop(c c30Case) ev.Outcome {
 		}
 		return o
 	}
+	if rec.Known(emptyNameAfterDot) && emptyNameAfterDotExplains(c.SQL, r, rec.Known) {
+		o.Excluded = emptyNameAfterDot
+		o.Classes = append(o.Classes, "finding_"+emptyNameAfterDot)
+		return o
+	}
 	if rec.Known(mysqlRawNames) && mysqlRawNamesExplains(c.SQL, r, rec.Known) {
 		o.Excluded = mysqlRawNames
 		o.Classes = append(o.Classes, "finding_"+mysqlRawNames)
 		return o
 	}
 	return ev.Fail("statement %q: %s", c.SQL, r.Msg)
+}
+
+const emptyNameAfterDot = "empty-name-from-operator-after-dot"
+
+// emptyNameAfterDotExplains: the tokenizer returns the keyword tokens AND / OR without a value for && and ||, and the
+// grammar lets any reserved keyword follow a dot (reserved_sql_id), so "x.&&" is a column named "" of table x. An empty
+// name has no spelling at all. Classifier: the text has a '.' directly followed by && or ||, and with exactly those
+// operators replaced by a plain name the statement passes the oracle (directly or through other known findings).
+func emptyNameAfterDotExplains(sql string, r rtResult, known func(string) bool) bool {
+	toks := lexemes(sql)
+	changed := 0
+	for i := 1; i < len(toks); i++ {
+		if (toks[i] == "&&" || toks[i] == "||") && toks[i-1] == "." {
+			changed++
+			toks[i] = "q" + strconv.Itoa(changed)
+		}
+	}
+	if changed == 0 {
+		return false
+	}
+	r2 := roundTrip(strings.Join(toks, " "))
+	if r2.Stage == "reject" || reflect.TypeOf(r2.T1) != reflect.TypeOf(r.T1) {
+		return false
+	}
+	return r2.Stage == "" || placeholderFinding(r2) != "" && known(placeholderFinding(r2)) || len(attribute(r2.T1, known)) > 0
 }
 
 const mysqlRawNames = "mysql-ddl-set-show-names-printed-raw"
@@ -231,10 +264,10 @@ func TestC30(t *testing.T) {
 			}
 		}
 	}, c30Prop)
-	ev.Check(t, rec, "grammar", ev.N(120000, 2400000), func(t *rapid.T) c30Case {
+	ev.Check(t, rec, "grammar", ev.N(120000, 1800000), func(t *rapid.T) c30Case {
 		return c30Case{GenStatement(t)}
 	}, c30Prop)
-	ev.Check(t, rec, "mutations", ev.N(180000, 3600000), func(t *rapid.T) c30Case {
+	ev.Check(t, rec, "mutations", ev.N(180000, 2700000), func(t *rapid.T) c30Case {
 		var base string
 		if rapid.IntRange(0, 2).Draw(t, "from_generator") == 0 {
 			base = GenStatement(t)
